@@ -116,7 +116,7 @@ Definition spec_closed (t : track) (disposed : bool) : bool :=
   spec_cond_part t || tk_ctx0 t || tk_ctx_tx t || disposed.
 
 Record env := {
-  en_faults : bool;        (* the history contains handler faults *)
+  en_faults : bool;        (* a transition faulted in its final phase (ticks moved, not accepted) *)
   en_setschema : bool;     (* SetSchema ran *)
   en_disposed : bool;
   en_done : list nat;      (* ended user contexts *)
@@ -221,8 +221,13 @@ Record wstate := {
   w_env : env;
   w_tracks : list track;
   w_poll : nat;
-  w_codes : list N
+  w_codes : list N;
+  w_applied : bool    (* ProcessStateCtx of the transition in flight has run *)
 }.
+
+Definition env_fault (e : env) : env :=
+  {| en_faults := true; en_setschema := en_setschema e; en_disposed := en_disposed e;
+     en_done := en_done e; en_orphan := en_orphan e |}.
 
 Definition env_upd (e : env) (o : sop) : env :=
   match o with
@@ -251,23 +256,28 @@ Definition walk_step (rets : list opobs) (polls : list (list bool)) (w : wstate)
     {| w_env := env_upd e o;
        w_tracks := if tracked then w_tracks w ++ [new_track e k v o] else w_tracks w;
        w_poll := w_poll w;
-       w_codes := w_codes w ++ subscribe_codes e v o ob |}
+       w_codes := w_codes w ++ subscribe_codes e v o ob; w_applied := w_applied w |}
   | EProcess act deact _ _ _ =>
     {| w_env := e; w_tracks := map (at_process act deact) (w_tracks w); w_poll := w_poll w;
-       w_codes := w_codes w |}
+       w_codes := w_codes w; w_applied := w_applied w |}
   | ETxEnd v processed =>
-    {| w_env := e; w_tracks := map (at_tx_end e v processed) (w_tracks w); w_poll := w_poll w;
-       w_codes := w_codes w |}
+    (* applied (ticks moved) but not accepted: a fault in the final phase *)
+    let e' := if w_applied w && negb processed then env_fault e else e in
+    {| w_env := e'; w_tracks := map (at_tx_end e v processed) (w_tracks w); w_poll := w_poll w;
+       w_codes := w_codes w; w_applied := false |}
   | EQueueEnd =>
     {| w_env := e; w_tracks := map at_queue_end (w_tracks w); w_poll := w_poll w;
-       w_codes := w_codes w |}
+       w_codes := w_codes w; w_applied := w_applied w |}
   | EPoll =>
     let flags := nth (w_poll w) polls [] in
     {| w_env := e; w_tracks := w_tracks w; w_poll := S (w_poll w);
        w_codes := w_codes w ++
          flat_map (fun t => match verdict e t (nth (tk_k t) flags false) with
-                            | Some c => [c] | None => [] end) (w_tracks w) |}
-  | EStateCtx _ _ => w
+                            | Some c => [c] | None => [] end) (w_tracks w);
+       w_applied := w_applied w |}
+  | EStateCtx _ _ =>
+    {| w_env := e; w_tracks := w_tracks w; w_poll := w_poll w; w_codes := w_codes w;
+       w_applied := true |}
   end.
 
 Fixpoint dedup_n (l : list N) : list N :=
@@ -277,11 +287,11 @@ Fixpoint dedup_n (l : list N) : list N :=
   end.
 
 (* all violation codes of one history *)
-Definition violations (faults : bool) (es : list sevent) (rets : list opobs)
+Definition violations (es : list sevent) (rets : list opobs)
   (polls : list (list bool)) : list N :=
-  let w0 := {| w_env := {| en_faults := faults; en_setschema := false; en_disposed := false;
+  let w0 := {| w_env := {| en_faults := false; en_setschema := false; en_disposed := false;
                            en_done := []; en_orphan := [] |};
-               w_tracks := []; w_poll := 0; w_codes := [] |} in
+               w_tracks := []; w_poll := 0; w_codes := []; w_applied := false |} in
   dedup_n (w_codes (fold_left (walk_step rets polls) es w0)).
 
 (* ------------------------------------------------------------------------
